@@ -19,7 +19,8 @@ remaining` in speedy's `read_vec`): it fails unless `k * minsz` bytes remain, an
 `k * minsz` — the bytes of input that back the reservation.  The memory actually reserved is `k` times
 the in-memory element size; per site (x86-64): `Change` 648 B per 37 backing bytes, `SyncNeedV1` 32 per
 2, `RangeInclusive<u64>` 24 per 16, `(ActorId, Vec)` map/vec entries 40 per 24 / 20, bytes 1 per 1: at
-most 18 bytes of memory per booked byte.  A guard with `minsz = 0` guards nothing and books nothing.
+most 18 bytes of memory per booked byte.  A guard with `minsz = 0` guards nothing; it books one unit
+per element.
 
 Maps (`HashMap`) are association lists in wire order; the drivers compare them canonically.
 -/
@@ -69,9 +70,10 @@ def take (n : Nat) : Dec Bytes := fun bs =>
   if bs.length < n then ⟨0, bs, .error .eof⟩ else ⟨0, bs.drop n, .ok (bs.take n)⟩
 
 /-- the guard in front of a reservation of `k` items of at least `minsz` encoded bytes each:
-refused (with `e`) unless the remaining input can back it up; books the backing bytes -/
+refused (with `e`) unless the remaining input can back it up; books the backing bytes
+(`k * minsz`; one unit per item when `minsz = 0`, where the guard is vacuous) -/
 def reserve (e : Err) (k minsz : Nat) : Dec Unit := fun bs =>
-  if k * minsz ≤ bs.length then ⟨k * minsz, bs, .ok ()⟩ else ⟨0, bs, .error e⟩
+  if k * minsz ≤ bs.length then ⟨k * max minsz 1, bs, .ok ()⟩ else ⟨0, bs, .error e⟩
 
 /-- `read_vec::<u8>(n)` (owned bytes: `Vec<u8>`, `String`, `SmallVec<[u8; _]>`) -/
 def takeOwned (n : Nat) : Dec Bytes := do
@@ -498,5 +500,27 @@ def WFSyncMsg : SyncMsg → Prop
   | .rejection r => r < 2
   | .request es => es.length < 4294967296 ∧ ∀ e ∈ es, WFActor e.1 ∧ e.2.length < 4294967296 ∧
       ∀ n ∈ e.2, WFSyncNeed n
+
+end Corro.Codec
+
+namespace Corro.Codec
+open Corro.Pack (Bytes Val validUtf8)
+
+/-! ### "no text that is not valid UTF-8" -/
+
+def ValTextValid : Val → Prop
+  | .text s => validUtf8 s = true
+  | _ => True
+
+def ChangeTextValid (c : Change) : Prop :=
+  validUtf8 c.table = true ∧ validUtf8 c.cid = true ∧ ValTextValid c.val
+
+def ChangesetTextValid : Changeset → Prop
+  | .full _ changes _ _ _ => ∀ c ∈ changes, ChangeTextValid c
+  | _ => True
+
+def OptTextValid : Option Bytes → Prop
+  | some s => validUtf8 s = true
+  | none => True
 
 end Corro.Codec
